@@ -35,6 +35,18 @@ type c08Case struct {
 	Multi         bool     `json:"multi"`
 	Req           string   `json:"req"`
 	Wrap          string   `json:"wrap"`
+	Hdrs          []c08Hdr `json:"hdrs"`
+	Extra         bool     `json:"extra"`
+}
+
+// one declared response header of part "hdr": the schema is an abstract schema of spec/SchemaSem.tla
+type c08Hdr struct {
+	Name    string `json:"name"`
+	Hs      any    `json:"hs"`
+	Hreq    bool   `json:"hreq"`
+	Explode bool   `json:"explode"`
+	Present bool   `json:"present"`
+	Text    string `json:"text"`
 }
 
 func c08Run(c *Case) []any {
@@ -114,8 +126,22 @@ func c08Run(c *Case) []any {
 		case "jsonAndText":
 			r["content"] = map[string]any{"application/json": map[string]any{"schema": bodySchema}, "text/plain": map[string]any{"schema": textSchema}}
 		}
+		if tc.Part == "hdr" {
+			hs := map[string]any{}
+			for _, h := range tc.Hdrs {
+				hs[h.Name] = map[string]any{"required": h.Hreq, "explode": h.Explode, "schema": absSchemaToOpenAPI(h.Hs)}
+				if h.Present {
+					// as net/http stores a received header: canonical key, one field line, the text as sent (possibly empty)
+					hdr[http.CanonicalHeaderKey(h.Name)] = []string{h.Text}
+				}
+			}
+			r["headers"] = hs
+			if tc.Extra {
+				hdr.Set("X-Undeclared", "zzz")
+			}
+		}
 		responses["200"] = r
-		if tc.Hv != "absent" {
+		if tc.Part != "hdr" && tc.Hv != "absent" {
 			hdr.Set("X-A", tc.Hv)
 		}
 		if tc.CtText != "" {
